@@ -23,6 +23,12 @@ pub fn arities(name: &str) -> &'static [usize] {
 }
 
 fn valid_key(v: &V) -> bool {
+    // NaN is not equal to itself and therefore no key
+    if let V::Float(f) = v {
+        if f.is_nan() {
+            return false;
+        }
+    }
     matches!(v, V::Str(_) | V::Char(_) | V::Byte(_) | V::Int(_) | V::Float(_) | V::Bool(_) | V::Null | V::Builtin(_) | V::Arr(_))
 }
 
@@ -128,7 +134,8 @@ pub fn call(name: &str, args: &[V]) -> R {
         "insert" => match a0 {
             V::Map(m) => {
                 if !valid_key(&args[1]) {
-                    return R::Unspecified("insert with a value that is not a valid key kind");
+                    // the key kinds a map literal rejects are rejected here as well (docs: data-model, valid keys)
+                    return R::Err;
                 }
                 let mut mm = m.borrow_mut();
                 for e in mm.iter_mut() {
@@ -320,6 +327,10 @@ pub fn call(name: &str, args: &[V]) -> R {
         "is_error" => R::Ok(V::Bool(matches!(a0, V::ErrObj))),
         "round" => match (a0, &args[1]) {
             (V::Float(f), V::Int(n)) => {
+                // a finite float of this magnitude has no fractional digits: it is its own rounding
+                if (0..=18).contains(n) && f.is_finite() && f.abs() >= 4503599627370496.0 {
+                    return R::Ok(V::Float(*f));
+                }
                 if *n < 0 || *n > 15 || !f.is_finite() || f.abs() > 1e15 {
                     return R::Unspecified("round with a precision/magnitude the docs do not cover");
                 }
